@@ -1322,6 +1322,28 @@ def basis_object_stage(chk):
                     held = [bs[i] for i in range(bs.nbasis)]                  # all requested before any is used
                     xs = np.array(sorted([float(br[0]), float(br[-1])] + [rng.uniform(float(br[0]), float(br[-1])) for _ in range(5)]))
                     tag = '%s:%s:p%d' % ('periodic' if periodic else 'clamped', 'cubic' if cu else 'uniform' if uniform else 'nonuniform', p)
+                    # out-parameter aliasing: the vector kernels read x[i] before they write y[i], so evaluating in place
+                    # (output array = array of points) must give the same values as with a separate output array
+                    co = np.array([rng.uniform(-2, 2) for _ in range(ncoef)])
+                    if periodic:
+                        co[bs.nbasis:] = co[:p]
+                    for der in (0, 1):
+                        kern = (rcu['cu_eval_spline_1d_vector'] if cu else rnu['nu_eval_spline_1d_vector'])
+                        sep = np.empty(len(xs))
+                        kern(xs.copy(), kn, p, co, sep, der)
+                        inpl = xs.copy()
+                        kern(inpl, kn, p, co, inpl, der)
+                        longer = np.full(len(xs) + 3, 7.5)
+                        kern(xs.copy(), kn, p, co, longer, der)
+                        chk.count(('inplace', tag, nc, der), stratum='inplace-vector:%s:der%d' % (tag, der), sample={'space': tag, 'ncells': nc, 'der': der})
+                        n += 1
+                        if not (np.array_equal(inpl, sep) and np.array_equal(longer[:len(xs)], sep) and (longer[len(xs):] == 7.5).all()):
+                            chk.violation('%s_eval_spline_1d_vector:out-parameter' % ('cu' if cu else 'nu'),
+                                          'space %s with %d cells, der=%d: evaluating into the array of points itself gives %r, into a separate array %r; '
+                                          'cells of a longer output array beyond len(x) %s' % (tag, nc, der, inpl.tolist()[:4], sep.tolist()[:4],
+                                                                                                'kept' if (longer[len(xs):] == 7.5).all() else 'overwritten'),
+                                          {'kind': 'impl', 'stage': 'inplace-vector', 'space': tag, 'breaks': [float(b) for b in br], 'degree': p,
+                                           'periodic': periodic, 'uniform': uniform, 'der': der, 'x': xs.tolist(), 'coeffs': co.tolist()})
                     for i, B in enumerate(held):
                         e = np.zeros(ncoef)
                         e[i] = 1.0
